@@ -59,6 +59,8 @@
 //!
 #![cfg_attr(not(doctest), doc = include_str!("docs2/command.md"))]
 //!
+#[cfg(bpaf_verif)]
+use crate::verif::std;
 use std::{ffi::OsString, marker::PhantomData, str::FromStr};
 
 use crate::{
